@@ -592,6 +592,24 @@ Lemma way_polygon_dedup_first (T : list rule) (nodes : list Z) (ts : tags) :
 Proof. apply way_polygon_ext. intros k _. symmetry. apply find_dedup_first. Qed.
 
 (* ------------------------------------------------------------------ *)
+(* 5b. full way nodes: only the refs are looked at                      *)
+(* ------------------------------------------------------------------ *)
+
+Lemma way_polygon_wn_ids (T : list rule) (ns : list waynode) (ts : tags) :
+  way_polygon_wn T ns ts = way_polygon T (map wid ns) ts.
+Proof.
+  unfold way_polygon_wn, way_polygon. rewrite map_length.
+  destruct (length ns <=? 3); [reflexivity|].
+  rewrite !nth_error_map.
+  destruct (nth_error ns 0) as [a|]; cbn [option_map]; [|reflexivity].
+  destruct (nth_error ns (length ns - 1)) as [b|]; cbn [option_map]; reflexivity.
+Qed.
+
+Lemma way_polygon_wn_annotations (T : list rule) (ns ns' : list waynode) (ts : tags) :
+  map wid ns = map wid ns' -> way_polygon_wn T ns ts = way_polygon_wn T ns' ts.
+Proof. intros H. rewrite !way_polygon_wn_ids, H. reflexivity. Qed.
+
+(* ------------------------------------------------------------------ *)
 (* 6. relations                                                        *)
 (* ------------------------------------------------------------------ *)
 
